@@ -399,6 +399,39 @@ Op Gen::compactOp() {
         op.tag = "huge-subtrees";
         return op;
     }
+    // sub-trees built from raw digits, valid or not: all seven digits 0..6 under a pentagon parent (digit 1 is its
+    // deleted sub-sequence) or all eight digits 0..7 under a hexagon.  Such cells pass the first round(s) like any
+    // others; the sibling count then exceeds its limit in a LATER round, which is the only way to take an error exit
+    // of compactCells after the first round without an allocation failure
+    if (r.chance(0.05)) {
+        int depth = (int)r.range(2, 3);
+        int R = (int)r.range(depth, 15);
+        bool pent = r.chance(0.5);
+        H3Index top = pent ? pentagon(R - depth) : randCell(R - depth);
+        int ndig = pent ? 7 : 8;
+        std::vector<H3Index> level = {top};
+        for (int d = 1; d <= depth; d++) {
+            int childRes = R - depth + d;
+            std::vector<H3Index> next;
+            for (auto p : level) {
+                // only the top parent gets the illegal fan-out; below it ordinary children (digits 0..6)
+                int fan = d == 1 ? ndig : 7;
+                for (int dig = 0; dig < fan; dig++) {
+                    H3Index c = (p & ~((H3Index)0xF << 52)) | ((H3Index)childRes << 52);
+                    int shift = (15 - childRes) * 3;
+                    c = (c & ~((H3Index)7 << shift)) | ((H3Index)dig << shift);
+                    next.push_back(c);
+                }
+            }
+            level.swap(next);
+        }
+        op.cells = level;
+        int extras = (int)r.below(6);
+        for (int i = 0; i < extras; i++) op.cells.push_back(randCell(R));
+        if (r.chance(0.7)) r.shuffle(op.cells);
+        op.tag = pent ? "raw-digits-under-pentagon" : "raw-digits-0-7";
+        return op;
+    }
     // whole base cells: compaction proceeds all the way to resolution 0
     if (r.chance(0.1)) {
         int R = r.chance(0.7) ? 1 : 2;
